@@ -7,7 +7,7 @@
    satisfying the contract. *)
 From GL Require Import Base.Order Base.Varint Base.VarintProofs Base.Cursor Base.CursorProofs
   Codec.BytesCmp Codec.BytesCmpProofs Codec.Block Codec.BlockEnc Codec.BlockProofs Codec.BlockSliceProofs
-  Codec.Table Codec.TableProofs Codec.TableIterProofs Codec.IndexedIterProofs Codec.TableSliceProofs Codec.TableDamageProofs Codec.TableDamageIterProofs
+  Codec.Table Codec.TableProofs Codec.TableIterProofs Codec.IndexedIterProofs Codec.TableSliceProofs Codec.TableDamageProofs Codec.TableDamageIterProofs Codec.TableDamageStrictProofs
   Codec.TableCheck Codec.TableCheckProofs Codec.TableWriteProofs Codec.TblCrc Gen.ConstsOkTbl.
 
 (* A.0  uvarint: Uvarint (PutUvarint x ++ rest) = (x, len) for every uint64 x. *)
@@ -159,9 +159,7 @@ Print Assumptions C13_table_reads_degrade_to_corruption.
 
 (* ... and the NON-STRICT iterator over a table some of whose data blocks cannot be read skips
    exactly those blocks: every movement sequence observes what the reference cursor over the
-   pairs of the readable blocks observes (remaining original pairs, in order).  (That the STRICT
-   iterator stops with the error at the first unreadable block it touches is exercised by (K) on
-   damaged tables and by (P) on every single-byte alteration; it is not proved.) *)
+   pairs of the readable blocks observes (remaining original pairs, in order). *)
 Theorem C13_table_iter_skips_unreadable : forall c rd rd' blocks seps hs (bad : nat -> bool),
   comparer_ok c -> table_wf c rd blocks seps hs ->
   tr_index rd' = tr_index rd ->
@@ -172,6 +170,17 @@ Theorem C13_table_iter_skips_unreadable : forall c rd rd' blocks seps hs (bad : 
                 = c_run c (concat (map (fun j => if bad j then [] else nth j blocks []) (seq 0 (length blocks)))) CSOI ops.
 Proof. exact table_iter_skips_unreadable. Qed.
 Print Assumptions C13_table_iter_skips_unreadable.
+
+(* ... and the STRICT iterator over a reader some of whose block fetches fail with Corrupt: every
+   call either behaves exactly as on the intact reader or returns false with the error set, after
+   which every call returns false — the observations of any movement sequence are a prefix of
+   those on the intact reader (hence, by B.4, of the reference cursor's) followed by false only. *)
+Theorem C13_table_strict_iter_degrades : forall c rd rd' ops t,
+  degraded rd rd' -> ti_strict t = true ->
+  exists n, firstn n (fst (ti_run c rd' t ops)) = firstn n (fst (ti_run c rd t ops)) /\
+            skipn n (fst (ti_run c rd' t ops)) = map (fun _ => None) (skipn n ops).
+Proof. intros c rd rd' ops t D. exact (strict_run_degraded c rd rd' D ops t). Qed.
+Print Assumptions C13_table_strict_iter_degrades.
 
 (* C.2  format membership: a reader accepted by the executable check [table_check] (every block
    re-encodes to its bytes with the given restart interval, separators and handles as required)
